@@ -43,6 +43,7 @@ type vFst struct {
 }
 type vTree struct {
 	T     []vNode  `json:"t"`
+	Home  string   `json:"home"`
 	Files []string `json:"files"`
 	One   []vOut   `json:"one"`
 	Two   []vOut   `json:"two"`
@@ -56,6 +57,7 @@ type vMismatch struct {
 	Via   string   `json:"via"`
 	Kind  string   `json:"kind"`
 	Tree  []vNode  `json:"tree"`
+	Home  string   `json:"home,omitempty"`
 	Pats  []string `json:"pats"`
 	Want  string   `json:"want"`
 	WantF []string `json:"want_files,omitempty"`
@@ -190,7 +192,7 @@ type vCaseCtx struct {
 
 // vJudge compares one real outcome with the specification's
 func (c *vCaseCtx) vJudge(via string, got []FileData, err error, panicked string) bool {
-	m := vMismatch{Line: c.line, Which: c.which, Idx: c.idx, Via: via, Tree: c.t.T, Pats: c.pats}
+	m := vMismatch{Line: c.line, Which: c.which, Idx: c.idx, Via: via, Tree: c.t.T, Home: c.t.Home, Pats: c.pats}
 	if c.want.E != nil {
 		m.Want = "reject:" + *c.want.E
 	} else {
@@ -267,7 +269,7 @@ func (c *vCaseCtx) vJudgeFS(got []FileData, fst map[string][]string) {
 		}()
 		entries = BuildFSEntries(got)
 	}()
-	m := vMismatch{Line: c.line, Which: c.which, Idx: c.idx, Via: "fs", Tree: c.t.T, Pats: c.pats, Want: "fs-table", WantF: d}
+	m := vMismatch{Line: c.line, Which: c.which, Idx: c.idx, Via: "fs", Tree: c.t.T, Home: c.t.Home, Pats: c.pats, Want: "fs-table", WantF: d}
 	if pan != "" {
 		m.Kind, m.Note = "panic", pan
 		c.report(m)
@@ -474,7 +476,12 @@ func TestVerifTrees(t *testing.T) {
 					mu.Unlock()
 					continue
 				}
-				if err := vRunTree(j.line, hdr, &tr, filepath.Join(base, fmt.Sprintf("w%d", w), "pkg"), report, stats); err != nil {
+				// the law does not depend on the name of the package directory; "meta" trees get one with glob metacharacters
+				pkgName := "pkg"
+				if tr.Home == "meta" {
+					pkgName = "p[k]g"
+				}
+				if err := vRunTree(j.line, hdr, &tr, filepath.Join(base, fmt.Sprintf("w%d", w), pkgName), report, stats); err != nil {
 					mu.Lock()
 					firstErr = fmt.Errorf("line %d: %v", j.line, err)
 					mu.Unlock()
@@ -713,6 +720,9 @@ func TestVerifGoListTrees(t *testing.T) {
 		add := func(which string, idx int, pats []string, want vOut) {
 			if cur == nil {
 				d := filepath.Join(base, fmt.Sprintf("m%d", nchunks))
+				if nchunks%2 == 1 { // every other module lives in a directory whose name has glob metacharacters
+					d = filepath.Join(base, fmt.Sprintf("m[%d]x", nchunks))
+				}
 				nchunks++
 				if err := os.MkdirAll(d, 0o755); err != nil {
 					t.Fatal(err)
